@@ -31,7 +31,26 @@ func spkiHash(c tls.Certificate) string {
 		}
 		c.Leaf = l
 	}
+	/* The identity of a key pair is its public key VALUE: the canonical encoding of the parsed key, not the bytes the certificate happens to carry
+	(Go's parser accepts a certificate whose SubjectPublicKeyInfo SEQUENCE claims a few bytes too many - same key, other bytes). */
+	if b, err := x509.MarshalPKIXPublicKey(c.Leaf.PublicKey); nil == err {
+		h := sha256.Sum256(b)
+		return hx(h[:8])
+	}
 	h := sha256.Sum256(c.Leaf.RawSubjectPublicKeyInfo)
+	return hx(h[:8])
+}
+
+// rawSpkiHash: the bytes as the certificate carries them (what a pin is computed from).
+func rawSpkiHash(c tls.Certificate) string {
+	if 0 == len(c.Certificate) {
+		return ""
+	}
+	l, err := x509.ParseCertificate(c.Certificate[0])
+	if nil != err {
+		return ""
+	}
+	h := sha256.Sum256(l.RawSubjectPublicKeyInfo)
 	return hx(h[:8])
 }
 
@@ -144,7 +163,9 @@ func certMain(args []string) {
 					_, err := sstls.Listen("tcp", runs[0].l.Addr().String(), "", 0, cf)
 					after, _ := fileState(cf)
 					st["busy_failed"] = nil != err
-					st["file_same"] = before == after
+					/* an EXISTING cache must be left as it was; when there was none (deleted earlier) the failed start may have created one */
+					st["file_same"] = before == after || "absent" == before
+					st["cache_before"] = before
 				}
 			case "probe": /* what does every run that is still up present NOW? */
 				sni = ""
@@ -234,6 +255,7 @@ func certMain(args []string) {
 				default:
 					st["r"] = "ok"
 					st["key"] = spkiHash(c)
+					st["rawkey"] = rawSpkiHash(c)
 					st["pair_ok"] = pairOK(c)
 				}
 				var dm []string
